@@ -5,6 +5,7 @@ import (
 	"fmt"
 	"os"
 	"path/filepath"
+	"runtime"
 	"strings"
 	"sync"
 	"sync/atomic"
@@ -25,10 +26,12 @@ type FCCase struct {
 	Cap   int    `json:"cap"`
 	Names int    `json:"names"`
 	Ops   []FCOp `json:"ops"`
+	// Callback installs an eviction callback (SetOnEvicted) that only counts.
+	Callback bool `json:"callback,omitempty"`
 }
 
 const c14Rule = "operations Open(name), Close(i-th lent handle), Remove(name), Clear, SetCacheSize(n) on filecache.FileCache with initial capacity 0..3; every Open is closed exactly once by the generator (the documented contract). " +
-	"Exhaustive part: every sequence over 2 names, capacities/resizes 0..2 up to depth 5 (quick) / 6 (thorough); random part: rapid sequences up to 60 calls over 3 names and capacities 0..3; concurrent part: goroutines opening/using/closing handles while another removes, clears and resizes. " +
+	"Exhaustive part: every sequence over 2 names, capacities/resizes 0..2 up to depth 5 (quick) / 6 (thorough); random part: rapid sequences up to 60 calls over 3 names and capacities 0..3; concurrent part: goroutines opening/using/closing handles while another removes, clears and resizes; random and concurrent parts with and without an eviction callback (SetOnEvicted) installed. " +
 	"oracle after EVERY call: every lent handle still answers Stat (not closed); Close of a lent handle returns nil; open descriptors on the test files (/proc/self/fd) <= capacity + distinct lent handles; at the end, after releasing everything and Clear, no descriptor remains. " +
 	"non-trivial = an eviction/removal/clear/resize while >=1 handle is lent, after which the same name is opened again; distinct = distinct call sequence"
 
@@ -79,6 +82,13 @@ func runFC(e *fcEnv, c FCCase) (st fcStats, v *Violation) {
 
 func runFCInner(e *fcEnv, c FCCase) (st fcStats, v *Violation) {
 	fc := filecache.New(c.Cap)
+	if c.Callback {
+		fc.SetOnEvicted(func(f *os.File, refs int) {
+			if refs < 0 {
+				panic(fmt.Sprintf("eviction callback got a negative reference count %d", refs))
+			}
+		})
+	}
 	capacity := c.Cap
 	if capacity < 0 {
 		capacity = 0
@@ -179,6 +189,7 @@ func runFCInner(e *fcEnv, c FCCase) (st fcStats, v *Violation) {
 
 func genFC(t *rapid.T) FCCase {
 	c := FCCase{Cap: rapid.IntRange(0, 3).Draw(t, "cap"), Names: 3}
+	c.Callback = weighted(t, "callback", []int{3, 1}) == 1
 	w := []int{rapid.IntRange(2, 6).Draw(t, "w_open"), rapid.IntRange(1, 5).Draw(t, "w_close"), rapid.IntRange(0, 3).Draw(t, "w_remove"),
 		rapid.IntRange(0, 2).Draw(t, "w_clear"), rapid.IntRange(0, 3).Draw(t, "w_resize")}
 	kinds := []string{"open", "close", "remove", "clear", "resize"}
@@ -249,8 +260,13 @@ func exhaustiveFC(depth, shard, shards int, fn func(FCCase) bool) {
 // runFCConcurrent: users open/use/close handles while a disturber removes,
 // clears and resizes. Free-running (real scheduling); the oracle is the same
 // handle model.
-func runFCConcurrent(e *fcEnv, users, rounds int, cap0 int) *Violation {
+func runFCConcurrent(e *fcEnv, users, rounds int, cap0 int, callback bool) *Violation {
 	fc := filecache.New(cap0)
+	if callback {
+		// A callback that gives the processor away: legal user code, and it
+		// makes the time the cache spends inside the callback observable.
+		fc.SetOnEvicted(func(*os.File, int) { runtime.Gosched() })
+	}
 	var uwg sync.WaitGroup
 	var first atomic.Pointer[Violation]
 	stop := make(chan struct{})
@@ -379,8 +395,9 @@ func TestC14(t *testing.T) {
 	for i := 0; i < nConc && !pastDeadline(); i++ {
 		c := struct {
 			Users, Rounds, Cap int
-		}{2 + i%3, 300, i % 4}
-		v := runFCConcurrent(e, c.Users, c.Rounds, c.Cap)
+			Callback           bool
+		}{2 + i%3, 300, i % 4, i%2 == 1}
+		v := runFCConcurrent(e, c.Users, c.Rounds, c.Cap, c.Callback)
 		ev.RecordEnumerated(c, true, "concurrent")
 		if v != nil && ev.Report(v, c) {
 			t.Fatalf("%v", v)
